@@ -111,8 +111,6 @@ pub(crate) fn scan_and_apply_units<S: TexlangState>(
     fractional_part: Scaled,
     glue_order: Option<&mut common::GlueOrder>,
 ) -> txl::Result<common::Scaled> {
-    // todo: scan spaces and non-call tokens
-
     // First try to scan for infinite units, if this is the stretch
     // or shrink of a glue.
     if let Some(glue_order) = glue_order {
@@ -141,7 +139,14 @@ pub(crate) fn scan_and_apply_units<S: TexlangState>(
         }
     }
     // Then try to scan from an internal number.
-    // TeX.2021.455
+    // TeX.2021.455; the token looked at is the next non-blank token (TeX.2021.406).
+    while let Some(next) = input.next()? {
+        if let Value::Space(_) = next.value() {
+            continue;
+        }
+        input.back(next);
+        break;
+    }
     if let Some(next) = input.next()? {
         let v_or = match next.value() {
             Value::CommandRef(command_ref) => {
